@@ -5,7 +5,6 @@ from typing import Optional, Union
 from ..._string_utils import infer_suggestions, quoted_options_list
 from ...exc import ScalarParsingError, UnknownEnumValue
 from ...lang import ast as _ast
-from ...lang.visitor import SkipNode
 from ...schema import (
     EnumType,
     GraphQLType,
@@ -106,7 +105,6 @@ class ValuesOfCorrectTypeChecker(ValidationVisitor):
 
         if list_type is not None and not isinstance(list_type, ListType):
             self._report_bad_value(input_type, node)
-            raise SkipNode()
 
     def enter_object_value(self, node):
         named_type = (
@@ -116,7 +114,7 @@ class ValuesOfCorrectTypeChecker(ValidationVisitor):
         )
         if not isinstance(named_type, InputObjectType):
             self._check_scalar(node)
-            raise SkipNode()
+            return
 
         input_fields = [f.name.value for f in node.fields]
         for field_def in named_type.fields:
